@@ -182,7 +182,9 @@ func NumberOfInducedPaths(g Graph, maxLength int) []int {
 	for i := 1; i < len(r); i++ {
 		r[i] /= 2
 	}
-	r[0] = n
+	if n > 0 {
+		r[0] = n
+	}
 	return r
 }
 
